@@ -820,7 +820,9 @@ impl MapKeys {
                 to_remove.push(replaced);
             }
         }
-        for &r in &to_remove {
+        // Remove the highest rows first so that the remaining ones keep their positions
+        to_remove.sort_unstable();
+        for &r in to_remove.iter().rev() {
             for i in &mut self.indices {
                 if *i > r {
                     *i -= 1;
